@@ -1197,7 +1197,12 @@ func (pc ParseContext) compileBytes(ctx context.Context, b ast.Branch, c ast.Chi
 func (pc ParseContext) compileExprs(ctx context.Context, exprs ...ast.Node) ([]rel.Expr, error) {
 	result := make([]rel.Expr, 0, len(exprs))
 	for _, expr := range exprs {
-		e, err := pc.CompileExpr(ctx, expr.(ast.Branch))
+		branch, is := expr.(ast.Branch)
+		if !is {
+			// e.g. the call argument (:end), whose start expression is missing
+			return nil, fmt.Errorf("missing expression")
+		}
+		e, err := pc.CompileExpr(ctx, branch)
 		if err != nil {
 			return nil, err
 		}
